@@ -74,8 +74,9 @@ func bounds(d *docSpec, sel map[int]bool, mode string) map[string]*bound {
 
 // verdict of one comparison
 type verdict struct {
-	Class string // "" = ok
-	What  string
+	Class   string // "" = ok
+	What    string
+	Finding string // known finding the failure is attributed to by counterfactual ("" = none)
 }
 
 // judgeAtoms applies clauses (1)-(4) to the atom sequences of one output
@@ -83,30 +84,29 @@ type verdict struct {
 func judgeAtoms(d *docSpec, sel map[int]bool, mode string, U, F []string) (v verdict, baselineOK bool) {
 	bs := bounds(d, sel, mode)
 	cu, cf := counts(U), counts(F)
-	// the unfiltered output has to show every unit once, otherwise the
-	// comparison below would blame exclusion for something else (C01/C09).
-	for a, b := range bs {
-		if cu[a] != b.exp {
-			return verdict{}, false
-		}
-	}
-	for a := range cu {
-		if bs[a] == nil {
+	// The unfiltered output must not show anything the construction does not
+	// explain (garbled or duplicated atoms): then the comparison below could
+	// blame exclusion for something else (C01/C09) and is skipped. Atoms that
+	// the unfiltered output already lacks (e.g. the line detector drops lines
+	// narrower than 5 pt) only weaken the comparison: bounds are applied to
+	// what is there.
+	for a, n := range cu {
+		if bs[a] == nil || n > bs[a].exp {
 			return verdict{}, false
 		}
 	}
 	if !isSubsequence(F, U) {
-		return verdict{"not-subsequence", fmt.Sprintf("output with exclusion is not a subsequence of the output without: with=%v without=%v", short(F), short(U))}, true
+		return verdict{Class: "not-subsequence", What: fmt.Sprintf("output with exclusion is not a subsequence of the output without: with=%v without=%v", short(F), short(U))}, true
 	}
 	for a, b := range bs {
 		del := cu[a] - cf[a]
 		if del > b.maxDel {
 			u := d.unitWith(a, sel, false)
-			return verdict{"deleted-protected/" + u.Role, fmt.Sprintf("%d occurrence(s) of %q deleted but only %d may be: unit %s", del, a, b.maxDel, u.brief())}, true
+			return verdict{Class: "deleted-protected/" + u.Role, What: fmt.Sprintf("%d occurrence(s) of %q deleted but only %d may be: unit %s", del, a, b.maxDel, u.brief())}, true
 		}
-		if del < b.minDel {
+		if keep := b.exp - b.minDel; cf[a] > keep {
 			u := d.unitWith(a, sel, true)
-			return verdict{"survived/" + u.Role, fmt.Sprintf("%q must be removed %d time(s) on the selected pages but only %d removed: unit %s", a, b.minDel, del, u.brief())}, true
+			return verdict{Class: "survived/" + u.Role, What: fmt.Sprintf("%q still occurs %d time(s) but at most %d occurrence(s) on the selected pages are not must-remove: unit %s", a, cf[a], keep, u.brief())}, true
 		}
 	}
 	return verdict{}, true
